@@ -195,6 +195,17 @@ MON = {}
 _ORIG_RULE_INIT = []
 
 
+_SPY = {}
+_SPY_VIOLS = []
+
+
+def _drain_spy(viols):
+    if _SPY_VIOLS:
+        viols = list(viols) + list(_SPY_VIOLS)
+        del _SPY_VIOLS[:]
+    return viols
+
+
 def install_rule_spy():
     """Remember the dict each Rule was built from (so that the oracle does not trust Rule's own parsing)."""
     cl = tmod("classify")
@@ -205,6 +216,14 @@ def install_rule_spy():
     def __init__(self, rules):
         self._awverif_spec = copy.deepcopy(rules)
         orig(self, rules)
+        # the definition belongs to the caller (a query binds a class list to a variable and uses it for several calls)
+        _SPY["rules_built"] = _SPY.get("rules_built", 0) + 1
+        try:
+            if exact(rules) != exact(self._awverif_spec) and len(_SPY_VIOLS) < 5:
+                _SPY_VIOLS.append(("rule-definition-modified-by-building-the-rule",
+                                   f"before={exact(self._awverif_spec)[:200]} after={exact(rules)[:200]}"))
+        except Exception:  # noqa: BLE001
+            pass
 
     _ORIG_RULE_INIT.append(orig)
     cl.Rule.__init__ = __init__
@@ -225,6 +244,7 @@ def setup(ctx):
 
 
 def teardown(ctx):
+    ctx.count("rules_built_under_the_spy", _SPY.get("rules_built", 0))
     for n, mon in MON.items():
         ctx.count(f"monitor.{n}", mon.evaluations)
         ctx.count(f"out_of_domain.{n}", mon.out_of_domain)
@@ -321,13 +341,19 @@ def gen_case(rng, ctx):
 
 def run_case(case, ctx):
     if case.get("kind") == "query":
-        return _tx.run_query_case(case, ctx, MON)
+        v, info = _tx.run_query_case(case, ctx, MON)
+        return _drain_spy(v), info
     events = [mk_event(s) for s in case["events"]]
     fn = case["fn"]
     cl = tmod("classify")
     if fn in ("categorize", "tag"):
-        classes = [(c, cl.Rule(spec)) for c, spec in case["rules"]]
+        mine = copy.deepcopy(case["rules"])        # the caller's own definitions, used for two sets of rules
+        [cl.Rule(spec) for _, spec in mine]
+        classes = [(c, cl.Rule(spec)) for c, spec in mine]
         _, _, viols, dom = MON[fn].judge((events, classes))
+        viols = _drain_spy(viols)
+        if not viols and exact(mine) != exact(case["rules"]):
+            viols = [("rule-definition-modified-by-building-the-rule", f"before={exact(case['rules'])[:200]} after={exact(mine)[:200]}")]
         pats = []
         tie = False
         for e in events:
